@@ -42,6 +42,11 @@ Positions(a) ==
   {AsTerm(a), AsTerm([k |-> "Product", q |-> <<a, B0>>]), AsTerm([k |-> "Product", q |-> <<B0, a>>]), AsTerm([k |-> "Negation", a |-> a]),
    AsTerm([k |-> "SetExtension", s |-> {a}]), AsTerm([k |-> "Inheritance", a |-> a, b |-> B0]), AsTerm([k |-> "Inheritance", a |-> B0, b |-> a]),
    AsTerm([k |-> "ImageExtension", i |-> 1, q |-> <<a>>])}
+  \* next to EVERY copula (either side) and behind EVERY connecter: a keyword may complete to another keyword with the name's first characters
+  \cup {AsTerm(MkStatement(kd, a, B0)) : kd \in CopKinds \ {"Instance", "Property", "InstanceProperty", "EquivalenceRetrospective"}}
+  \cup {AsTerm(MkStatement(kd, B0, a)) : kd \in CopKinds \ {"Instance", "Property", "InstanceProperty", "EquivalenceRetrospective"}}
+  \cup {AsTerm([k |-> kd, s |-> {a}]) : kd \in SetKinds} \cup {AsTerm([k |-> kd, q |-> <<a, B0>>]) : kd \in SeqKinds}
+  \cup {AsTerm([k |-> kd, a |-> a, b |-> B0]) : kd \in {"DifferenceExtension", "DifferenceIntension"}}
   \cup {AsSentence(Sentence(t, p, st, tr)) : t \in {a, [k |-> "Product", q |-> <<B0, a>>]}, p \in Puncts,
         st \in {[k |-> "Eternal"], [k |-> "Present"], [k |-> "Fixed", n |-> "5"]}, tr \in {<<>>, <<"1">>}}
   \cup {AsTask(b, Sentence(a, p, [k |-> "Eternal"], <<>>)) : b \in {<<>>, <<"0.5">>}, p \in {"Judgement", "Question"}}
